@@ -87,6 +87,11 @@ func (w *ConfigurationWatcher) Start(ch chan<- controller.ID) error {
 		for event := range eventCh {
 			ch <- controller.NewID(proposalstore.NewID(event.Configuration.TargetID, event.Configuration.Index))
 			ch <- controller.NewID(proposalstore.NewID(event.Configuration.TargetID, event.Configuration.Status.Applied.Index))
+			// Wake the committed Proposals that are still waiting to be applied: the Proposal at the applied
+			// index re-queues its successor, but there is none to do so while the applied index is 0.
+			for index := event.Configuration.Status.Applied.Index + 1; index <= event.Configuration.Status.Committed.Index; index++ {
+				ch <- controller.NewID(proposalstore.NewID(event.Configuration.TargetID, index))
+			}
 		}
 	}()
 	return nil
